@@ -444,8 +444,9 @@ IXAI_PREFIX = 'ixai'
 
 
 @contextlib.contextmanager
-def patched(env, modules=None, with_float=True, np_random=None, py_random=None):
-    """Install shims as module globals of every loaded ixai module (or the given ones)."""
+def patched(env, modules=None, with_float=True, np_random=None, py_random=None, extra_modules=()):
+    """Install shims as module globals of every loaded ixai module (or the given ones).
+    extra_modules: further module names (e.g. river metric modules) whose ``math`` / ``random`` / ``np`` are shimmed too."""
     py_random = py_random if py_random is not None else RandomStub(env)
     np_random = np_random if np_random is not None else NpRandomStub(env)
     np_shim = NumpyShim(env, np_random)
@@ -455,6 +456,7 @@ def patched(env, modules=None, with_float=True, np_random=None, py_random=None):
     mods = [m for name, m in list(sys.modules.items())
             if m is not None and (name == IXAI_PREFIX or name.startswith(IXAI_PREFIX + '.'))
             and (modules is None or name in modules)]
+    mods += [sys.modules[name] for name in extra_modules if name in sys.modules]
     for m in mods:
         d = m.__dict__
         for attr, shim, real in (('np', np_shim, _np), ('random', py_random, _real_random),
@@ -491,7 +493,8 @@ class UFModel:
     Logs every call (input dict as given) so harnesses can assert on what reached the model.
     """
 
-    def __init__(self, env, features, labels=('output',), reads=None, name='M', flavor='py', faults=None):
+    def __init__(self, env, features, labels=('output',), reads=None, name='M', flavor='py', faults=None,
+                 varying_labels=False):
         self.env = env
         self.features = list(features)
         self.reads = list(features if reads is None else reads)
@@ -500,14 +503,35 @@ class UFModel:
         self.flavor = flavor
         self.calls = []     # list of input dicts (shallow copies)
         self.faults = faults
+        self.varying_labels = varying_labels   # the label set is an arbitrary (deterministic) function of the input
+        self._labelsets = {}
         self._fs = {lab: env.uf(f"{name}_{_lab(lab)}", len(self.reads)) for lab in self.labels}
+
+    def _key(self, x):
+        out = []
+        for f in self.reads:
+            v = x[f]
+            out.append(('t', v.t.get_id()) if isinstance(v, Sym) else ('v', getattr(v, '_tag', None) or repr(v)))
+        return tuple(out)
+
+    def labels_for(self, x):
+        if not self.varying_labels or len(self.labels) < 2:
+            return self.labels
+        k = self._key(x)
+        if k not in self._labelsets:
+            keep = [self.labels[0]]
+            for lab in self.labels[1:]:
+                if self.env.choose(2, label=('emits', str(lab))) == 0:
+                    keep.append(lab)
+            self._labelsets[k] = keep
+        return self._labelsets[k]
 
     def _one(self, x):
         if self.faults is not None:
             self.faults.tick('model')
         self.calls.append(dict(x))
         args = [x[f] for f in self.reads]
-        return {lab: self._fs[lab](*args, flavor=self.flavor) for lab in self.labels}
+        return {lab: self._fs[lab](*args, flavor=self.flavor) for lab in self.labels_for(x)}
 
     def __call__(self, x):
         if isinstance(x, dict):
@@ -519,7 +543,7 @@ class UFModel:
         return self._fs[label](*[x[f] for f in self.reads], flavor=self.flavor)
 
     def out(self, x):
-        return {lab: self.value(x, lab) for lab in self.labels}
+        return {lab: self.value(x, lab) for lab in self.labels_for(x)}
 
 
 def _lab(lab):
